@@ -465,6 +465,21 @@ func cmacStreamWL(x *mon.Ctx) {
 			case op < 7:
 				ops = append(ops, "Sum")
 				c.Class("cmac/%s/sum/nx=%s", f.name, lenClass(len(model), f.bs))
+			case op == 7 && c.R.Bool():
+				// the one-shot MAC(m) on the RUNNING object (data absorbed, with or without a Sum behind it, no Reset):
+				// its tag depends on the key and m alone. What the streaming state is afterwards is not specified:
+				// the history goes on after a Reset.
+				m := c.R.Bytes([]int{0, 1, f.bs - 1, f.bs, f.bs + 1, 2 * f.bs, c.R.Intn(60)}[c.R.Intn(7)])
+				ops = append(ops, fmt.Sprintf("MAC(%d bytes, one-shot on the running object)", len(m)))
+				c.Class("cmac/%s/oneshot-on-running/nx=%s/len=%s", f.name, lenClass(len(model), f.bs), lenClass(len(m), f.bs))
+				var t []byte
+				if !c.Call("MAC", func() { t = h.MAC(append([]byte{}, m...)) }) {
+					ok = false
+					continue
+				}
+				ok = judgeF(c, func() string { return fmt.Sprintf("one-shot MAC after %v", ops) }, mac.CMAC, inst, pads[0], m, t, size) && ok
+				h.Reset()
+				model = model[:0]
 			default:
 				ops = append(ops, "Reset")
 				c.Class("cmac/%s/reset", f.name)
